@@ -7,6 +7,7 @@ programs with collected extras, and the dump sweep (a dumper returning its argum
 import collections
 import copy
 import dataclasses
+import enum
 import json
 import types
 from decimal import Decimal
@@ -22,6 +23,8 @@ MUTABLE = (list, dict, set, bytearray, collections.deque)
 def is_model(o: Any) -> bool:
     if isinstance(o, BaseException):
         return False          # raising an exception object decorates it (traceback, trail, notes): not a container of the datum
+    if isinstance(o, enum.Enum):
+        return False          # members are the class's own singletons, not containers that a call builds
     return hasattr(o, "__dict__") and not isinstance(o, (type, types.FunctionType, types.ModuleType, types.MethodType)) and type(o).__module__ != "builtins"
 
 
@@ -164,8 +167,15 @@ class DstM:
     made: Any = None
 
 
+class Fl(enum.Flag):
+    A = 1
+    B = 2
+    C = 4
+    AB = 3
+
+
 def catalogue() -> list:
-    from adaptix import ExtraKwargs, P, Retort, name_mapping
+    from adaptix import ExtraKwargs, P, Retort, flag_by_member_names, name_mapping
     from adaptix.conversion import get_converter, link_constant, link_function
 
     def L(tp, arg, asis=lambda a: [], recipe=(), **opts):
@@ -208,6 +218,12 @@ def catalogue() -> list:
         D(Outer, lambda: Outer(Inner([1]), ["x"]), recipe=[name_mapping(Outer, map={"inner": ("nest", ...)})]),
         D(Inner, lambda: Inner([1, 2]), recipe=[name_mapping(Inner, as_list=True)]),
     ]
+    # representation providers that build a container: the list of member names of a flag (each option cube corner that changes the code path)
+    for opts in ({}, {"allow_compound": False}, {"allow_single_value": True, "allow_duplicates": False}):
+        fl = [flag_by_member_names(**opts)]
+        cases += [D(Fl, lambda: Fl.A | Fl.C, recipe=fl), D(Fl, lambda: Fl(0), recipe=fl), D(Fl, lambda: Fl.AB, recipe=fl),
+                  D(List[Fl], lambda: [Fl.A, Fl.A, Fl.B | Fl.C], recipe=fl), D(Dict[str, Fl], lambda: {"k": Fl.A, "l": Fl.A}, recipe=fl),
+                  L(Fl, lambda: ["A", "C"], recipe=fl), L(List[Fl], lambda: [["A"], ["A"]], recipe=fl)]
     # converters: same-type fields are documented as passed as is; everything else adaptix builds is new
     for label, factory in (("list", list), ("dict", dict), ("deque", collections.deque), ("custom", lambda: {"k": [1]}), ("model", lambda: Inner([7]))):
         cases.append({"op": "convert", "label": f"link_constant(factory={label})", "arg": lambda: SrcM([1], Inner([2]), {"k": [3]}),
